@@ -49,6 +49,24 @@ impl Drop for ActiveGuard {
     }
 }
 
+/// owned by the select coroutine's closure (captured by move): dropped after the arm's EventSender, i.e. after the
+/// arm was counted out - the coroutine has only *ended* when this (yielding) destructor is through
+static LATE_ENDED: [AtomicU32; 4] = [Z; 4];
+struct LateEnd(usize);
+impl Drop for LateEnd {
+    fn drop(&mut self) {
+        // (the yield is a cancellation point: for a removed arm it may end in the Cancel panic)
+        struct Count(usize);
+        impl Drop for Count {
+            fn drop(&mut self) {
+                LATE_ENDED[self.0].fetch_add(1, Ordering::SeqCst);
+            }
+        }
+        let _c = Count(self.0);
+        coroutine::yield_now();
+    }
+}
+
 #[derive(Clone, Copy, PartialEq, Debug)]
 pub enum Top {
     Ready,
@@ -103,7 +121,9 @@ fn poll_run(e: &'static Engine, workers: usize, poller_co: bool, tops: &'static 
                 for (i, t) in tops.iter().enumerate() {
                     let rxr = &rx;
                     let t = *t;
+                    let late = LateEnd(i);
                     let sel = go!(cq, i, move |es| {
+                        let _late = &late;
                         ACTIVE.fetch_add(1, Ordering::SeqCst);
                         let _g = ActiveGuard(i);
                         for _ in 0..events {
@@ -139,8 +159,8 @@ fn poll_run(e: &'static Engine, workers: usize, poller_co: bool, tops: &'static 
                         }
                         Err(PollError::Finished) => {
                             for i in 0..tops.len() {
-                                if ENDED[i].load(Ordering::SeqCst) != 1 {
-                                    e.fail("finished_early", &format!("poll reported Finished but arm {} has not ended", i));
+                                if ENDED[i].load(Ordering::SeqCst) != 1 || LATE_ENDED[i].load(Ordering::SeqCst) != 1 {
+                                    e.fail("finished_early", &format!("poll reported Finished but arm {} has not ended (body ended {}, captured state dropped {})", i, ENDED[i].load(Ordering::SeqCst), LATE_ENDED[i].load(Ordering::SeqCst)));
                                 }
                             }
                             out.push('F');
@@ -194,7 +214,7 @@ fn poll_run(e: &'static Engine, workers: usize, poller_co: bool, tops: &'static 
     drop(tx);
     // the scope is left: no arm is executing any more and nothing changes afterwards
     let snap: Vec<(u32, u32)> = (0..tops.len()).map(|i| (TOP[i].load(Ordering::SeqCst), BOTTOM[i].load(Ordering::SeqCst))).collect();
-    if ACTIVE.load(Ordering::SeqCst) != 0 {
+    if ACTIVE.load(Ordering::SeqCst) != 0 || (0..tops.len()).any(|i| LATE_ENDED[i].load(Ordering::SeqCst) != 1) {
         e.fail("arm_still_running", "the cqueue scope returned while a select coroutine was still executing");
     }
     e.quiesce();
@@ -224,7 +244,9 @@ fn poll_run_thread(e: &'static Engine, workers: usize, tops: &'static [Top], eve
     cqueue::scope(|cq| {
         for (i, t) in tops.iter().enumerate() {
             let t = *t;
+            let late = LateEnd(i);
             let sel = go!(cq, i, move |es| {
+                let _late = &late;
                 ACTIVE.fetch_add(1, Ordering::SeqCst);
                 let _g = ActiveGuard(i);
                 for _ in 0..events {
@@ -256,8 +278,8 @@ fn poll_run_thread(e: &'static Engine, workers: usize, tops: &'static [Top], eve
                 }
                 Err(PollError::Finished) => {
                     for i in 0..tops.len() {
-                        if ENDED[i].load(Ordering::SeqCst) != 1 {
-                            e.fail("finished_early", &format!("poll reported Finished but arm {} has not ended", i));
+                        if ENDED[i].load(Ordering::SeqCst) != 1 || LATE_ENDED[i].load(Ordering::SeqCst) != 1 {
+                            e.fail("finished_early", &format!("poll reported Finished but arm {} has not ended (body ended {}, captured state dropped {})", i, ENDED[i].load(Ordering::SeqCst), LATE_ENDED[i].load(Ordering::SeqCst)));
                         }
                     }
                     break;
@@ -268,6 +290,9 @@ fn poll_run_thread(e: &'static Engine, workers: usize, tops: &'static [Top], eve
         IN_POLL.store(true, Ordering::SeqCst);
     });
     IN_POLL.store(false, Ordering::SeqCst);
+    if (0..tops.len()).any(|i| LATE_ENDED[i].load(Ordering::SeqCst) != 1) {
+        e.fail("arm_still_running", "the cqueue scope returned while a select coroutine was still executing");
+    }
     e.quiesce();
     check_outside(e, tops.len());
     for i in 0..tops.len() {
@@ -402,8 +427,84 @@ fn drain_cancelled(e: &'static Engine, workers: usize, select: bool) {
     e.note("ok");
 }
 
+/// the poller never polls: arm 0 panics at once, arm 1 is busy (sleeps 2 ms, then sends) when the poller, after a nap
+/// of 1 ms, leaves the scope. The final drain must wait for arm 1 as well, and only then re-raise arm 0's panic - also
+/// when the poller itself is unwinding from a panic of its own (`poller_panics`; then its own panic goes on).
+fn drain_meets_panic(e: &'static Engine, workers: usize, poller_co: bool, poller_panics: bool) {
+    rt_init(workers);
+    e.begin();
+    let body = move || -> u32 {
+        let r = std::panic::catch_unwind(std::panic::AssertUnwindSafe(|| {
+            let _f = FrameEnd;
+            cqueue::scope(|cq| {
+                let late0 = LateEnd(0);
+                go!(cq, 0, move |_es| {
+                    let _late = &late0;
+                    ACTIVE.fetch_add(1, Ordering::SeqCst);
+                    let _g = ActiveGuard(0);
+                    std::panic::panic_any(66u32)
+                });
+                let late1 = LateEnd(1);
+                go!(cq, 1, move |es| {
+                    let _late = &late1;
+                    ACTIVE.fetch_add(1, Ordering::SeqCst);
+                    let _g = ActiveGuard(1);
+                    coroutine::sleep(Duration::from_millis(2));
+                    es.send(0);
+                });
+                if coroutine::is_coroutine() {
+                    coroutine::sleep(Duration::from_millis(1));
+                } else {
+                    e.vsleep(MS);
+                }
+                if poller_panics {
+                    std::panic::panic_any(77u32);
+                }
+            });
+        }));
+        let code = match r {
+            Ok(()) => 0,
+            Err(p) => p.downcast_ref::<u32>().cloned().unwrap_or(1),
+        };
+        if ACTIVE.load(Ordering::SeqCst) != 0 || (0..2).any(|i| LATE_ENDED[i].load(Ordering::SeqCst) != 1) {
+            LEFT_WITH_ARMS.store(true, Ordering::SeqCst);
+        }
+        code
+    };
+    let code = if poller_co {
+        match go!(body).join() {
+            Ok(c) => c,
+            Err(_) => e.fail("unexpected_panic", "the polling coroutine panicked outside the scope"),
+        }
+    } else {
+        body()
+    };
+    if LEFT_WITH_ARMS.load(Ordering::SeqCst) {
+        e.fail("arm_still_running", "the cqueue scope was left while a select coroutine was still executing");
+    }
+    let want = if poller_panics { 77 } else { 66 };
+    if code != want {
+        e.fail("panic_not_reraised", &format!("the scope ended with panic code {} (0 = none), expected {}", code, want));
+    }
+    e.quiesce();
+    e.note(&format!("code={}", code));
+}
+
 pub fn build(quick: bool) -> Vec<Scenario> {
     let mut v = vec![];
+    for w in [1usize, 2] {
+        for (co, pp) in [(true, false), (false, false), (true, true), (false, true)] {
+            if quick && w == 1 && !co {
+                continue;
+            }
+            v.push(Scenario::new(
+                "C16",
+                "drain_meets_panic",
+                format!("cqueue.drain_meets_arm_panic.{}{}.w{}", if co { "co_poller" } else { "thread_poller" }, if pp { ".poller_panics" } else { "" }, w),
+                Arc::new(move |e| drain_meets_panic(e, w, co, pp)),
+            ));
+        }
+    }
     for w in [1usize, 2] {
         v.push(Scenario::new("C16", "drain_cancelled", format!("cqueue.owner_cancelled_in_final_drain.w{}", w), Arc::new(move |e| drain_cancelled(e, w, false))));
         v.push(Scenario::new("C16", "drain_cancelled", format!("select.owner_cancelled_in_final_drain.w{}", w), Arc::new(move |e| drain_cancelled(e, w, true))));
